@@ -803,3 +803,90 @@ func askExplore(runs, naskers, nasks int, seed int64, tfile string) {
 	_ = sys.Stop(context.Background())
 	printStats(st)
 }
+
+// askLate is a fixed witness schedule (not a walk of AskPool.tla, whose Enq step is atomic): the caller is held
+// inside doReceive right after its message has been linked into the target's mailbox (parked at the dispatch
+// state's ds.ts.load gate), while a Tell from elsewhere schedules the target, which answers the Ask, returns and
+// dequeues the Tell - thereby recycling the Ask's ReceiveContext - before the caller goes on. A caller that reads
+// anything from its context after the enqueue (e.g. the reply channel) then waits on nothing (or on another
+// Ask's channel) and loses the in-time reply. All three entry points are driven in turn.
+func askLate(runs int, tfile string) {
+	w := mustTrace(tfile)
+	sys := newSystem()
+	caller, err := sys.Spawn(context.Background(), "caller", idleActor{}, actor.WithLongLived())
+	if err != nil {
+		fatal(err)
+	}
+	st := &askStats{}
+	for r := 0; r < runs; r++ {
+		x := newSession(sys, caller, w, st, r, r%3)
+		x.s.OnlyPoints("ds.ts.load")
+		x.s.Watchdog = 3 * time.Second * slow
+		x.emitNew()
+		x.startAsker("a1", 1, 1)
+		func() {
+			for i := 0; i < 3; i++ { // getContext, responseClosed := false, getResponseChannel
+				if !x.stepAsker("a1") {
+					return
+				}
+			}
+			if p, _ := x.s.Pending("a1"); p.Point != "ask.enq" {
+				x.setDrift("late:not-at-ask.enq:%s", p.String())
+				return
+			}
+			// the enqueue: the message is linked, the caller is held before TrySchedule
+			p, err := x.s.Step("a1")
+			if err != nil || p.Point != "ds.ts.load" {
+				x.setDrift("late:not-held-after-enqueue:%s:%v", p.String(), err)
+				return
+			}
+			x.nenq++
+			// a Tell schedules the target: it takes the Ask, answers, returns and dequeues the Tell
+			if !x.tell(91) || x.cur == nil || x.cur.id != 11 {
+				x.setDrift("late:target-did-not-take-the-ask")
+				return
+			}
+			if !x.respCall() || !x.respSend() || !x.finish() {
+				return
+			}
+			if x.cur == nil || x.cur.id != 91 {
+				x.setDrift("late:target-did-not-take-the-tell")
+				return
+			}
+			// now the caller continues
+			x.s.SkipPoints("ds.ts.load")
+			p, err = x.s.Step("a1")
+			if err != nil || p.Point != "ask.select" {
+				x.setDrift("late:not-at-select:%s:%v", p.String(), err)
+				return
+			}
+			// the reply was sent long before: the select must return it at once
+			p, err = x.s.Step("a1")
+			if err != nil {
+				// the caller sits in its select although its reply is there: only its deadline releases it
+				k := x.askers["a1"]
+				k.mu.Lock()
+				k.blocked = true
+				k.mu.Unlock()
+				if !x.deadline("a1") {
+					return
+				}
+			}
+			for i := 0; i < 8; i++ {
+				if pd, parked := x.s.Pending("a1"); !parked || pd.Done {
+					break
+				}
+				if !x.stepAsker("a1") {
+					return
+				}
+			}
+			x.finish()
+		}()
+		x.close(x.windDown())
+	}
+	w.Emit(map[string]any{"ev": "New", "t": "", "id": 0, "res": 0, "err": 0, "closed": []int{0, 0}})
+	st.Events = w.Count()
+	w.Close()
+	_ = sys.Stop(context.Background())
+	printStats(st)
+}
